@@ -3,7 +3,7 @@
    text data of esutil's own test-suite, the integers 1..1764), the powers of two and ten listed below.
    For each such memory image e:  tok_ok (F_model e), length (P_model (F_model e)) = sz, and the value comes back
    to 16 / 7 significant digits (for the integers even exactly). *)
-From Coq Require Import QArith ZifyBool.
+From Coq Require Import QArith Qabs ZifyBool Lqa.
 From Coq.Strings Require Import Byte.
 From EsVerif.Common Require Import Base Bytes.
 From EsVerif.C04 Require Import Gen TextModel Spec CheckProofs FmtModel.
@@ -84,4 +84,23 @@ Theorem cell_exact_sound sz e : cell_exact sz e = true ->
 Proof.
   unfold cell_exact, fcell_ok_b. intro H. apply andb_true_iff in H. destruct H as [H1 H2].
   apply andb_true_iff in H1. destruct H1 as [_ H1]. split; [apply fval_ok_b_sound; exact H1|apply bytes_eqb_eq; exact H2].
+Qed.
+
+(* ---------------------------------------------------------------- the accuracy clause is what correct rounding gives *)
+Open Scope Q_scope.
+(* why a correctly rounding C library satisfies the accuracy clause of H_num: x printed to [digits] significant digits
+   (p within half a unit of the last digit) and p read back as a nearest representable number y, x itself being
+   representable (so y is at least as close to p as x is) *)
+Lemma sig_close_from_correct_rounding digits x p y e :
+  Qpower ten e <= Qabs x -> Qabs x < Qpower ten (e + 1) ->
+  Qabs (p - x) <= (1 # 2) * Qpower ten (e - digits + 1) ->
+  Qabs (y - p) <= Qabs (x - p) ->
+  sig_close digits x y.
+Proof.
+  intros H1 H2 Hp Hy. right. exists e. split; [exact H1|]. split; [exact H2|].
+  assert (T : Qabs (y - x) <= Qabs (y - p) + Qabs (p - x)).
+  { setoid_replace (y - x) with ((y - p) + (p - x)) by ring. apply Qabs_triangle. }
+  assert (S : Qabs (x - p) == Qabs (p - x)).
+  { setoid_replace (x - p) with (- (p - x)) by ring. apply Qabs_opp. }
+  rewrite S in Hy. lra.
 Qed.
